@@ -112,14 +112,16 @@ CHECKS = {
     "C15": {
         "quick": [
             {"pkg": "v2", "entries": ["VerifC15History"], "params": {"H": 2, "N": 2}},
+            {"pkg": "v2", "entries": ["VerifC15History"], "params": {"H": 1, "N": 2, "OPTN": 4}},
             {"pkg": "v2", "entries": ["VerifC15MapOrder"], "params": {}, "replay_repeat": 40},
         ],
         "thorough": [
             {"pkg": "v2", "entries": ["VerifC15History"], "params": {"H": 3, "N": 2, "FAMS": 1}},
             {"pkg": "v2", "entries": ["VerifC15History"], "params": {"H": 2, "N": 3}},
+            {"pkg": "v2", "entries": ["VerifC15History"], "params": {"H": 2, "N": 2, "OPTN": 4}},
             {"pkg": "v2", "entries": ["VerifC15MapOrder"], "params": {}, "replay_repeat": 40},
         ],
-        "covers": ["c15.history.none", "c15.history.merge", "c15.maporder"],
+        "covers": ["c15.history.none", "c15.history.merge", "c15.history.set", "c15.history.multiset", "c15.maporder"],
         "outside": "histories longer than H calls; 'fresh processes' are represented by map-iteration-order nondeterminism only (the sole per-process randomness in scope); objects with more than 2-3 keys in the map-order leg",
         "assumptions": ["map iteration: the engine forks over every permutation of the entries at each range statement (independently per statement); native replay of a map-order counterexample is statistical (40 repetitions)"],
     },
@@ -179,15 +181,18 @@ CHECKS = {
         "quick": [
             {"pkg": "v2", "entries": ["VerifC07List", "VerifC07Obj", "VerifC07Set", "VerifC07Merge"], "params": {"N": 2}},
             {"pkg": "v2", "entries": ["VerifC07Set"], "params": {"N": 1, "NESTED": 1}},
+            {"pkg": "v2", "entries": ["VerifC07Keyed"], "params": {"N": 1, "M": 1}},
         ],
         "thorough": [
             {"pkg": "v2", "entries": ["VerifC07List"], "params": {"N": 3}},
             {"pkg": "v2", "entries": ["VerifC07Obj", "VerifC07Merge"], "params": {"N": 2, "INNER": 2}},
             {"pkg": "v2", "entries": ["VerifC07Set"], "params": {"N": 3}},
             {"pkg": "v2", "entries": ["VerifC07Set"], "params": {"N": 1, "NESTED": 1}},
+            {"pkg": "v2", "entries": ["VerifC07Keyed"], "params": {"N": 2, "M": 1}},
+            {"pkg": "v2", "entries": ["VerifC07Keyed"], "params": {"N": 1, "M": 2}},
         ],
-        "covers": ["c07.list.root", "c07.list.key", "c07.obj", "c07.set.set", "c07.set.multiset", "c07.merge"],
-        "outside": "arrays longer than N; SetKeys hunks (covered for patch semantics in C08); FNV collisions",
+        "covers": ["c07.list.root", "c07.list.key", "c07.obj", "c07.set.set", "c07.set.multiset", "c07.merge", "c07.keyed"],
+        "outside": "arrays longer than N; FNV collisions",
     },
     "C13": {
         "quick": [
